@@ -282,3 +282,206 @@ Proof.
     + rewrite (HE0 eq_refl eq_refl). cbn [pynum_q]. change (pow10q 0) with (inject_Z 1).
       destruct neg; [rewrite inject_Z_opp|]; ring.
 Qed.
+
+(* ====================================================================================
+   B. Decimal * COIN under the 28-digit context, int()
+   ==================================================================================== *)
+Lemma ndigits_f_spec fuel : forall c, 0 < c < 2 ^ Z.of_nat fuel ->
+  10 ^ (ndigits_f fuel c - 1) <= c < 10 ^ (ndigits_f fuel c) /\ 1 <= ndigits_f fuel c.
+Proof.
+  induction fuel as [|f IH]; intros c H.
+  - change (2 ^ Z.of_nat 0) with 1 in H. lia.
+  - cbn [ndigits_f]. destruct (c <? 10) eqn:E.
+    + apply Z.ltb_lt in E. change (10 ^ (1 - 1)) with 1. change (10 ^ 1) with 10. lia.
+    + apply Z.ltb_ge in E. rewrite Nat2Z.inj_succ, Z.pow_succ_r in H by lia.
+      destruct (IH (c / 10)) as [[L U] P]; [lia|].
+      replace (1 + ndigits_f f (c / 10) - 1) with (Z.succ (ndigits_f f (c / 10) - 1)) by lia.
+      replace (1 + ndigits_f f (c / 10)) with (Z.succ (ndigits_f f (c / 10))) by lia.
+      rewrite !Z.pow_succ_r by lia. lia.
+Qed.
+Lemma ndigits_spec c : 0 < c -> 10 ^ (ndigits c - 1) <= c < 10 ^ (ndigits c) /\ 1 <= ndigits c.
+Proof.
+  intros H. unfold ndigits. replace (c <=? 0) with false by (symmetry; apply Z.leb_gt; exact H).
+  apply ndigits_f_spec. split; [exact H|].
+  rewrite Nat2Z.inj_succ, Z2Nat.id by (apply Z.log2_nonneg).
+  apply Z.log2_spec in H. lia.
+Qed.
+Lemma ndigits_unique c n : 10 ^ (n - 1) <= c < 10 ^ n -> 1 <= n -> ndigits c = n.
+Proof.
+  intros H Hn. assert (Hc : 0 < c) by (pose proof (pow10_gt0 (n - 1)); lia).
+  destruct (ndigits_spec c Hc) as [[L U] P].
+  destruct (Z_lt_le_dec (ndigits c) n) as [A|A].
+  - assert (10 ^ ndigits c <= 10 ^ (n - 1)) by (apply Z.pow_le_mono_r; lia). lia.
+  - destruct (Z_lt_le_dec n (ndigits c)) as [B|B]; [|lia].
+    assert (10 ^ n <= 10 ^ (ndigits c - 1)) by (apply Z.pow_le_mono_r; lia). lia.
+Qed.
+Lemma ndigits_le c n : 0 < c -> c < 10 ^ n -> 0 <= n -> ndigits c <= n.
+Proof.
+  intros Hc H Hn. destruct (ndigits_spec c Hc) as [[L U] P].
+  destruct (Z_lt_le_dec n (ndigits c)) as [B|B]; [|lia].
+  assert (10 ^ n <= 10 ^ (ndigits c - 1)) by (apply Z.pow_le_mono_r; lia). lia.
+Qed.
+
+(* a positive coefficient C with exponent e that denotes the integer A < 10^28:
+   rounding to 28 digits loses nothing and int() returns A *)
+Lemma dec_int_exact C e A : 0 < C -> 0 <= A < 10 ^ 28 ->
+  (if 0 <=? e then C * 10 ^ e = A else C = A * 10 ^ (- e)) ->
+  let '(c, e') := dec_round C e in
+  c <> 0 /\ e' + ndigits c - 1 <= 27 /\ (if 0 <=? e' then c * 10 ^ e' else c / 10 ^ (- e')) = A.
+Proof.
+  intros HC HA Hden. unfold dec_round, DEC_PREC.
+  destruct (ndigits_spec C HC) as [[L U] P]. set (n := ndigits C) in *.
+  destruct (n <=? 28) eqn:En.
+  - (* fits *)
+    apply Z.leb_le in En. split; [lia|]. fold n.
+    destruct (0 <=? e) eqn:Ee.
+    + apply Z.leb_le in Ee. split; [|exact Hden].
+      (* 10^(n-1+e) <= A < 10^28 *)
+      destruct (Z_lt_le_dec 27 (e + n - 1)) as [B|B]; [|lia]. exfalso.
+      assert (10 ^ 28 <= 10 ^ (n - 1 + e)) by (apply Z.pow_le_mono_r; lia).
+      rewrite Z.pow_add_r in H by lia.
+      pose proof (pow10_gt0 e Ee). nia.
+    + apply Z.leb_gt in Ee. split; [lia|]. rewrite Hden. apply Z.div_mul.
+      pose proof (pow10_gt0 (- e)). lia.
+  - (* more than 28 digits: only possible through trailing zeros *)
+    apply Z.leb_gt in En.
+    destruct (0 <=? e) eqn:Ee.
+    { exfalso. apply Z.leb_le in Ee.
+      assert (10 ^ 28 <= 10 ^ (n - 1)) by (apply Z.pow_le_mono_r; lia).
+      pose proof (pow10_gt0 e Ee). nia. }
+    apply Z.leb_gt in Ee.
+    set (k := n - 28). assert (Hk : 0 < k) by (unfold k; lia).
+    (* k <= - e *)
+    assert (Hke : k <= - e).
+    { destruct (Z_lt_le_dec (- e) k) as [B|B]; [|exact B]. exfalso.
+      assert (10 ^ (28 + - e) <= 10 ^ (n - 1)) by (apply Z.pow_le_mono_r; unfold k in *; lia).
+      rewrite Z.pow_add_r in H by lia. pose proof (pow10_gt0 (- e)). nia. }
+    assert (Hsplit : 10 ^ (- e) = 10 ^ (- e - k) * 10 ^ k).
+    { rewrite <- Z.pow_add_r by lia. f_equal. lia. }
+    pose proof (pow10_gt0 k) as Pk. pose proof (pow10_gt0 (- e - k)) as Pek.
+    assert (HCk : C = (A * 10 ^ (- e - k)) * 10 ^ k) by (rewrite Hden, Hsplit; ring).
+    assert (Hq : C / 10 ^ k = A * 10 ^ (- e - k)) by (rewrite HCk; apply Z.div_mul; lia).
+    assert (Hr : C mod 10 ^ k = 0) by (rewrite HCk; apply Z.mod_mul; lia).
+    rewrite Hr, Hq. 
+    replace (2 * 0 >? 10 ^ k) with false by (symmetry; rewrite Z.gtb_ltb; apply Z.ltb_ge; lia).
+    replace (2 * 0 =? 10 ^ k) with false by (symmetry; apply Z.eqb_neq; lia).
+    cbn [orb andb].
+    (* the quotient has exactly 28 digits *)
+    assert (Hq28 : 10 ^ 27 <= A * 10 ^ (- e - k) < 10 ^ 28).
+    { rewrite <- Hq. split.
+      - apply Z.div_le_lower_bound; [lia|]. rewrite <- Z.pow_add_r by lia.
+        replace (k + 27) with (n - 1) by (unfold k; lia). exact L.
+      - apply Z.div_lt_upper_bound; [lia|]. rewrite <- Z.pow_add_r by lia.
+        replace (k + 28) with n by (unfold k; lia). exact U. }
+    replace (A * 10 ^ (- e - k) =? 10 ^ 28) with false by (symmetry; apply Z.eqb_neq; lia).
+    split; [lia|].
+    rewrite (ndigits_unique (A * 10 ^ (- e - k)) 28) by (change (28 - 1) with 27; lia).
+    split; [lia|].
+    destruct (0 <=? e + k) eqn:Eek.
+    + apply Z.leb_le in Eek. replace (- e - k) with 0 by lia. replace (e + k) with 0 by lia.
+      change (10 ^ 0) with 1. ring.
+    + apply Z.leb_gt in Eek. replace (- (e + k)) with (- e - k) by lia. apply Z.div_mul. lia.
+Qed.
+
+(* the value of a Python number as a pair of integers *)
+Lemma pynum_q_dec_iff neg c e a :
+  (pynum_q (PDec neg c e) == btc_of_sat a)%Q <->
+  (if 0 <=? e then (if neg then - c else c) * 10 ^ e * 100000000 = a
+   else (if neg then - c else c) * 100000000 = a * 10 ^ (- e)).
+Proof.
+  unfold pynum_q, btc_of_sat, SATOSHI_PER_COIN.
+  set (s := if neg then - c else c).
+  assert (Hs : ((if neg then - (1) else 1) * inject_Z c == inject_Z s)%Q).
+  { subst s. destruct neg; [rewrite inject_Z_opp|]; ring. }
+  rewrite Hs. clear Hs.
+  destruct (0 <=? e) eqn:Ee.
+  - apply Z.leb_le in Ee. rewrite pow10q_nonneg by exact Ee. rewrite <- inject_Z_mult.
+    split; intros H.
+    + assert (X : (inject_Z (s * 10 ^ e) / inject_Z 1 == inject_Z a / inject_Z 100000000)%Q)
+        by (rewrite <- H; change (inject_Z 1) with 1%Q; field).
+      apply (proj1 (Qdiv_eq_iff (s * 10 ^ e) 1 a 100000000 ltac:(lia) ltac:(lia))) in X. lia.
+    + assert (X : s * 10 ^ e * 100000000 = a * 1) by lia.
+      apply (proj2 (Qdiv_eq_iff (s * 10 ^ e) 1 a 100000000 ltac:(lia) ltac:(lia))) in X. rewrite <- X. change (inject_Z 1) with 1%Q. field.
+  - apply Z.leb_gt in Ee. replace e with (- (- e)) at 1 by lia. rewrite pow10q_neg by lia.
+    pose proof (pow10_gt0 (- e)).
+    rewrite <- (Qdiv_eq_iff s (10 ^ (- e)) a 100000000) by lia. reflexivity.
+Qed.
+
+Lemma amount_of_pynum_exact p a :
+  match p with PDec _ c _ => 0 <= c | PInt _ => True end ->
+  (pynum_q p == btc_of_sat a)%Q -> Z.abs a < 10 ^ 28 -> amount_of_pynum p = Ok a.
+Proof.
+  intros Hc Hq Ha. destruct p as [z | neg c e].
+  - cbn [amount_of_pynum pynum_q] in *. unfold btc_of_sat, SATOSHI_PER_COIN in Hq.
+    assert (z * 100000000 = a * 1).
+    { apply (Qdiv_eq_iff z 1 a 100000000); [lia|lia|]. rewrite <- Hq. change (inject_Z 1) with 1%Q. field. }
+    unfold RPC_COIN. f_equal. lia.
+  - apply pynum_q_dec_iff in Hq. cbn [amount_of_pynum]. unfold dec_mul_int_to_int.
+    change (RPC_COIN <? 0) with false. rewrite xorb_false_r. change (Z.abs RPC_COIN) with 100000000.
+    destruct (Z.eq_dec c 0) as [-> | Hc0].
+    + (* zero coefficient *)
+      assert (a = 0).
+      { destruct (0 <=? e) eqn:Ee; destruct neg; cbn in Hq; try lia.
+        all: apply Z.leb_gt in Ee; pose proof (pow10_gt0 (- e)); nia. }
+      subst a. reflexivity.
+    + assert (HC : 0 < c * 100000000) by lia.
+      pose proof (dec_int_exact (c * 100000000) e (Z.abs a) HC) as X.
+      destruct (dec_round (c * 100000000) e) as [c' e'].
+      destruct X as (N & O & V).
+      * lia.
+      * destruct (0 <=? e) eqn:Ee; destruct neg; try lia.
+        all: apply Z.leb_gt in Ee; pose proof (pow10_gt0 (- e)); nia.
+      * replace (c' =? 0) with false by (symmetry; apply Z.eqb_neq; exact N).
+        unfold DEC_EMAX. replace (e' + ndigits c' - 1 >? 999999) with false
+          by (symmetry; rewrite Z.gtb_ltb; apply Z.ltb_ge; lia).
+        rewrite V. f_equal.
+        destruct (0 <=? e) eqn:Ee; destruct neg; try lia.
+        all: apply Z.leb_gt in Ee; pose proof (pow10_gt0 (- e)); nia.
+Qed.
+
+(* ====================================================================================
+   C. receiving: every spelling of a/10^8 converts to exactly a
+   ==================================================================================== *)
+Lemma pynum_of_spelling_coef s : wf_spelling s = true ->
+  match pynum_of_spelling s with PDec _ c _ => 0 <= c | PInt _ => True end.
+Proof.
+  destruct s as [neg ip fp ex]. unfold wf_spelling, pynum_of_spelling. cbn [sp_int sp_frac sp_exp sp_neg].
+  intros H. apply andb_true_iff in H as [H Hex]. apply andb_true_iff in H as [Hip Hfp].
+  destruct (wf_int_inv ip Hip) as [Hd _].
+  destruct fp as [f|].
+  - apply wf_digits1_inv in Hfp as [Hf _]. apply dval_nonneg. rewrite forallb_app, Hd, Hf. reflexivity.
+  - destruct ex; [|exact I]. apply dval_nonneg. rewrite forallb_app, Hd. reflexivity.
+Qed.
+
+(* the general form: exact for every integral satoshi value of up to 28 digits ... *)
+Theorem recv_exact_28 s a : wf_spelling s = true -> denotes_sat s a -> Z.abs a < 10 ^ 28 ->
+  amount_of_json (JNum (spell s)) = Ok a.
+Proof.
+  intros Hwf Hden Ha. cbn [amount_of_json]. rewrite (scan_spell s Hwf).
+  apply amount_of_pynum_exact.
+  - apply pynum_of_spelling_coef. exact Hwf.
+  - rewrite (pynum_of_spelling_value s Hwf). exact Hden.
+  - exact Ha.
+Qed.
+(* ... in particular on the money range (the 28-digit context never comes into play) *)
+Theorem recv_exact s a : wf_spelling s = true -> denotes_sat s a -> 0 <= a <= MAX_MONEY ->
+  amount_of_json (JNum (spell s)) = Ok a.
+Proof.
+  intros Hwf Hden Ha. apply recv_exact_28; [exact Hwf|exact Hden|].
+  unfold MAX_MONEY, SATOSHI_PER_COIN in Ha. change (10 ^ 28) with 10000000000000000000000000000. lia.
+Qed.
+
+(* the context does matter beyond 28 digits: a value on the satoshi grid that is NOT
+   converted exactly *)
+Lemma recv_inexact_29_digits :
+  exists s a, wf_spelling s = true /\ denotes_sat s a /\ amount_of_json (JNum (spell s)) <> Ok a.
+Proof.
+  exists {| sp_neg := false; sp_int := [1;2;3;4;5;6;7;8;9;0;1;2;3;4;5;6;7;8;9;0;1];
+            sp_frac := Some [1;2;3;4;5;6;7;8]; sp_exp := None |}, 12345678901234567890112345678.
+  split; [reflexivity|]. split; [vm_compute; reflexivity|]. vm_compute. intros H. discriminate H.
+Qed.
+
+(* every well-formed spelling is accepted by the document check, nothing else over the
+   number alphabet is *)
+Lemma json_ok_spell s : wf_spelling s = true -> json_ok (JNum (spell s)) = true.
+Proof. intros H. cbn [json_ok]. rewrite (scan_spell s H). reflexivity. Qed.
